@@ -24,39 +24,48 @@ Jobs == 1..NJobs
 Files == 1..NFiles
 FileOf(j) == ((j - 1) % NFiles) + 1
 
-VARIABLES cache, mem, used, reg, regs, hist
-hvars == <<cache, mem, used, reg, regs, hist>>
+VARIABLES cache, mem, used, reg, regs, ver, hist
+hvars == <<cache, mem, used, reg, regs, ver, hist>>
 
 Init == /\ cache = [f \in Files |-> "cold"] /\ mem = [f \in Files |-> FALSE]
-        /\ used = FALSE /\ reg = 0 /\ regs = {} /\ hist = <<>>
+        /\ used = FALSE /\ reg = 0 /\ regs = {} /\ ver = [f \in Files |-> 1] /\ hist = <<>>
 
-\* the result of a job is a function of the job alone
-Res(j) == j
+\* the result of a job is a function of the job alone: its csvpath and what its file holds NOW (ver: a file may be replaced by
+\* another file at the same path - Rewrite)
+Res(j) == <<j, ver[FileOf(j)]>>
 
 Job(j, via) ==
   /\ hist' = Append(hist, [op |-> "job", j |-> j, via |-> via, res |-> Res(j),
                            cacheWas |-> cache[FileOf(j)], memWas |-> mem[FileOf(j)], usedWas |-> used,
-                           regWas |-> reg, regBefore |-> FileOf(j) \in regs])
-  /\ used' = TRUE
+                           regWas |-> reg, regBefore |-> FileOf(j) \in regs, ver |-> ver[FileOf(j)]])
+  /\ used' = TRUE /\ UNCHANGED ver
   /\ IF via \in {"paths", "named"}
        THEN cache' = [cache EXCEPT ![FileOf(j)] = "warm"] /\ mem' = [mem EXCEPT ![FileOf(j)] = TRUE]
        ELSE UNCHANGED <<cache, mem>>
   \* a named run reads the file that is registered under the shared name NOW: the job's own
   /\ IF via = "named" THEN reg' = FileOf(j) /\ regs' = regs \cup {FileOf(j)} ELSE UNCHANGED <<reg, regs>>
 NewProcess == /\ used
-              /\ used' = FALSE /\ mem' = [f \in Files |-> FALSE] /\ UNCHANGED <<cache, reg, regs>>
-              /\ hist' = Append(hist, [op |-> "newproc", j |-> 0, via |-> "", res |-> 0, cacheWas |-> "", memWas |-> FALSE, usedWas |-> TRUE, regWas |-> reg, regBefore |-> FALSE])
+              /\ used' = FALSE /\ mem' = [f \in Files |-> FALSE] /\ UNCHANGED <<cache, reg, regs, ver>>
+              /\ hist' = Append(hist, [op |-> "newproc", j |-> 0, via |-> "", res |-> 0, cacheWas |-> "", memWas |-> FALSE, usedWas |-> TRUE, regWas |-> reg, regBefore |-> FALSE, ver |-> 0])
 ClearCache == /\ \E f \in Files : cache[f] = "warm"
-              /\ cache' = [f \in Files |-> "cold"] /\ UNCHANGED <<mem, used, reg, regs>>
-              /\ hist' = Append(hist, [op |-> "clearcache", j |-> 0, via |-> "", res |-> 0, cacheWas |-> "", memWas |-> FALSE, usedWas |-> used, regWas |-> reg, regBefore |-> FALSE])
+              /\ cache' = [f \in Files |-> "cold"] /\ UNCHANGED <<mem, used, reg, regs, ver>>
+              /\ hist' = Append(hist, [op |-> "clearcache", j |-> 0, via |-> "", res |-> 0, cacheWas |-> "", memWas |-> FALSE, usedWas |-> used, regWas |-> reg, regBefore |-> FALSE, ver |-> 0])
+\* another file is put at the path of file f (what a path names is what it holds now). The line/header caches are keyed by
+\* the path: they belong to the file that was there, so the step empties the on-disk cache, and it is only taken while no
+\* CsvPaths instance of the current process holds the old file in memory (the statement is about the same file cold vs warm)
+Rewrite(f) == /\ ver[f] = 1 /\ ~mem[f]
+              /\ ver' = [ver EXCEPT ![f] = 2] /\ cache' = [g \in Files |-> "cold"] /\ UNCHANGED <<mem, used, reg, regs>>
+              /\ hist' = Append(hist, [op |-> "rewrite", j |-> f, via |-> "", res |-> 0, cacheWas |-> "", memWas |-> FALSE, usedWas |-> used,
+                                       regWas |-> reg, regBefore |-> FALSE, ver |-> 2])
 
 Next == /\ Len(hist) < MaxLen
         /\ \/ \E j \in Jobs, via \in {"direct", "paths", "named"} : Job(j, via)
            \/ NewProcess \/ ClearCache
+           \/ \E f \in Files : Rewrite(f)
 Spec == Init /\ [][Next]_hvars
 
 \* the property: whatever happened before, a job's result is the job's result
-HistoryFree == \A i \in 1..Len(hist) : hist[i].op = "job" => hist[i].res = Res(hist[i].j)
+HistoryFree == \A i \in 1..Len(hist) : hist[i].op = "job" => hist[i].res = <<hist[i].j, hist[i].ver>>
 \* the situations the replay must exercise (read with -coverage / counted by the harness):
 \* a job served from a warm disk cache in a fresh process, from memory, cold, and after other jobs
 WarmFresh == \E i \in 1..Len(hist) : hist[i].op = "job" /\ hist[i].via = "paths" /\ hist[i].cacheWas = "warm" /\ ~hist[i].memWas
@@ -65,5 +74,5 @@ WarmFresh == \E i \in 1..Len(hist) : hist[i].op = "job" /\ hist[i].via = "paths"
 BackToEarlier == \E i \in 1..Len(hist) : hist[i].op = "job" /\ hist[i].via = "named" /\ hist[i].regBefore /\ hist[i].regWas # FileOf(hist[i].j)
 
 Emit == Len(hist) = MaxLen => PrintT(<<"F", ToJson(hist)>>)
-StoreView == <<cache, mem, used, reg, regs>>
+StoreView == <<cache, mem, used, reg, regs, ver>>
 =============================================================================
